@@ -22,6 +22,7 @@ OBLIGATIONS = [
     ob('mux_2x1_ops3_realmalloc', 2, 1, 3, defs=['NS=2', 'NE=1', 'NOPS=3', 'REAL_MALLOC'], timeout=900, mem_gb=16,
        bounds='2 constituents x <= 1 event, 3 calls, CBMC\'s own malloc/free model with pointer checks (use after free)'),
     ob('mux_2x2_ops6', 2, 2, 6),
-    ob('mux_3x2_ops8', 3, 2, 8),
+    ob('mux_3x1_ops4', 3, 1, 4),
+    ob('mux_3x2_ops6', 3, 2, 6, tiers=('thorough',), timeout=3000, mem_gb=20),
     ob('mux_3x3_ops12', 3, 3, 12, tiers=('thorough',), timeout=3000, mem_gb=20),
 ]
